@@ -63,6 +63,9 @@ Prove(k, m) == /\ Bound
                /\ UNCHANGED <<keys, params, nid>>
 Tamper == /\ Bound /\ proof.kind \in {"proof"} /\ proof' = [kind |-> "tampered"] /\ UNCHANGED <<keys, params, nid>>
           /\ Step([cmd |-> "tamper"], "yes", "empty")
+\* the proof file emptied outside the tool (`: > proof`, a failed redirection): nothing, or only white space, reaches verify's stdin
+Blank(how) == /\ Bound /\ how \in {"empty", "whitespace"} /\ proof' = [kind |-> "blank"] /\ UNCHANGED <<keys, params, nid>>
+              /\ Step([cmd |-> "blank", how |-> how], "yes", "empty")
 \* verify --mode m --keys-file k --input-hash h < proof;  h: "own" = the hash of the batch the proof was made for, "other", "junk" (not a number)
 Verify(k, m, h) == /\ Bound
                    /\ LET ok == /\ m \in Modes /\ keys[k].kind = "keys" /\ proof.kind = "proof" /\ proof.keyid = keys[k].id
@@ -115,7 +118,7 @@ Next == \/ \E k \in KeyFiles, m \in Modes \cup BadModes, d \in Dims : Setup(k, m
         \/ \E m \in Modes \cup BadModes, d \in Dims, v \in BOOLEAN : GenParams(m, d, v)
         \/ \E k \in KeyFiles, m \in Modes \cup BadModes : Prove(k, m)
         \/ \E k \in KeyFiles, m \in Modes \cup BadModes : Serve(k, m)
-        \/ Tamper
+        \/ Tamper \/ (\E how \in {"empty", "whitespace"} : Blank(how))
         \/ \E k \in KeyFiles, m \in Modes \cup BadModes, h \in {"own", "other", "junk"} : Verify(k, m, h)
         \/ \E k, k2 \in KeyFiles : Convert(k, k2)
 Spec == Init /\ [][Next]_vars
@@ -123,6 +126,7 @@ Spec == Init /\ [][Next]_vars
 \* a success status is never reported for a wrong result
 TruthfulExit == \A i \in 1..Len(hist) :
    /\ (hist[i].cmd \in {"setup", "gen-test-params", "prove", "verify", "r1cs", "import-setup", "serve"} /\ hist[i].mode \in BadModes => hist[i].exit0 = "no")
+   /\ (hist[i].cmd = "verify" /\ i > 1 /\ hist[i - 1].cmd = "blank" => hist[i].exit0 = "no")                  \* nothing to verify is not a success
    /\ (hist[i].cmd = "serve" /\ hist[i].exit0 = "no" => hist[i].stdout = "empty")          \* a service that does not come up answers nothing
    /\ (hist[i].cmd = "prove" /\ hist[i].exit0 # "any" => (hist[i].exit0 = "yes" <=> hist[i].stdout = "proof"))
 Export == Len(hist) = MaxSteps => PrintT("TRACE " \o ToJson(hist))
